@@ -446,6 +446,223 @@ def translate_control():
     return tables
 
 
+
+# ------------------------------------------------------------------------------------------------
+# check description
+# ------------------------------------------------------------------------------------------------
+
+SPEC = {
+    "id": "C18",
+    "sub": "c18",
+    "lean_modules": ["TrustVerif.Props.C18"],
+    "translators": [translate_control],
+    # `cases` = number of scenario cases AFTER the exhaustive product (every dispatched name and 11
+    # unknown/garbled names x 12 credentials x {token set, unset} x {debug on, off} = one case each)
+    "tiers": {
+        "quick": {"cases": 640, "extra": {"tables": "C18.tables.json"}},
+        "thorough": {"cases": 40000, "extra": {"tables": "C18.tables.json"}},
+    },
+    # A disagreement in which the implementation does MORE than the proved model allows (an effect, or a
+    # handler's answer, where the model refuses) is a failing input of the property and is reported by the
+    # oracle in extra(); any other disagreement only breaks the tie between model and code.
+    "disagreement_is_violation": False,
+    "rule": "case = fresh ControlState behind the real ControlServer on a unix socket (auth token set/unset/empty, "
+            "control_requires_auth, debug switch, control mode, pairing store with viewer/operator/engineer/admin/"
+            "expired/revoked/expiring-now tokens and a pending code) x one request line (exhaustive part: every "
+            "dispatched name and 11 unknown names x 12 credentials x token set/unset x debug on/off, parameters "
+            "drawn from a per-type palette of effective / rejected / garbage values) or a scenario (garbled byte "
+            "streams, config.set key combinations, token rotation/removal, debug switch, revoke, full pairing flow "
+            "with role sanitising, clock advance over token/code expiry, two principals on one connection); "
+            "non-trivial = the line was refused by a gate (unauthorized / forbidden / debug disabled / unsupported / "
+            "connection closed) or changed at least one probe; distinct = by hash of the case's operation lines",
+    "trusted_base": [
+        "Lean 4.33.0 kernel; axioms per theorem listed under 'theorems'",
+        "translator checks/c18.py::translate_control (regex/brace scanner over AccessRole, "
+        "required_role_for_control_request, required_role_for_config_set, is_debug_request, handle_config_set's "
+        "key match, handlers/*.rs dispatch matches; fails closed on any shape it does not recognise); every table "
+        "row is additionally exercised through the socket by the exhaustive part of the run",
+        "hand-written model lean/TrustVerif/Model/C18.lean of handle_request_line / handle_request_value / "
+        "resolve_request_role / handle_config_set (gate-relevant part) / pair.* / PairingStore, tied by this run's "
+        "correspondence (reply class, reply id, set of changed probes)",
+        "hand-written classification staticEffect/mutating (which request changes what): total over the generated "
+        "dispatcher list by theorem c18_classification_total, validated by 12 state probes before/after every line",
+        "Rust harness vharness c18: request palette (which parameter values are effective in its standard world), "
+        "its mirror of struct ControlRequest (serde) used to tell the model whether a line parses, the probes "
+        "(Debug renderings of DebugControl / ResourceControl / settings, command log of the stub resource, "
+        "project-root file hashes, PairingStore::list, build_alarm_view)",
+    ],
+    "assumptions": [
+        "handler bodies other than config.set and pair.* are not modelled: 'handled' stands for whatever the handler "
+        "answers; that a handler terminates is NOT claimed (see finding C18-debug-evaluate-self-deadlock)",
+        "str::trim / to_ascii_lowercase are modelled on ASCII white space and letters (all the generator uses)",
+        "session caches (DAP variable handles, HMI trend/alarm cache, the debugger's stop-event queue) are not "
+        "counted as runtime state: viewer-level reads refresh or drain them",
+        "JSON duplicate keys, key order and number formats are serde_json's business: the model starts from the "
+        "parsed request (or the fact that parsing failed), which the harness determines with serde_json itself",
+    ],
+}
+
+MANIFEST = {
+    "technique": "Lean 4 proof over a gate model whose permission/dispatch/debug/config-key tables are regenerated from the "
+                 "Rust sources each run (kernel-checked decide over the complete tables) + differential correspondence "
+                 "through the real ControlServer on a unix socket with before/after state probes",
+    "level_text": "Proved for every endpoint state, every line and every credential (no bound): a line that changes any probe, "
+                  "changes the endpoint's gates or is answered with more than a constant refusal parsed as a request whose "
+                  "credential maps to a role >= the role required for its type and parameters, with the debug gate open and a "
+                  "handler present (c18_effect_needs_role, lifted to arbitrary histories with clock ticks); with a token "
+                  "configured, requests without the token or a live pairing token get the bare 'unauthorized' reply and change "
+                  "nothing, over any history (c18_unauth_silent, c18_history_unauth_silent, c18_credential_none_iff); every "
+                  "dispatched name is classified, listed in the permission table and unique, and every mutating one requires "
+                  "more than viewer for all parameters (decide over the regenerated tables + c18_mutating_above_viewer); "
+                  "config.set needs engineer, admin for credential/auth-mode keys; the debug list equals the names of the "
+                  "debugger's handler modules and those requests are refused while debugging is off; unknown types and "
+                  "malformed lines have no effect; allows is >= on a total order.  Each run executes model and real server on "
+                  "the same ~3.7k cases / ~8k lines (exhaustive names x credentials x token x debug, plus scenarios) and compares "
+                  "reply class, reply id and the exact set of changed probes.",
+    "level_note": "Trusted: Lean kernel (+ propext/Quot.sound/Classical.choice where listed); the regex translator (fails closed; "
+                  "rows cross-checked through the socket); the hand-written gate model and effect classification (validated only "
+                  "by the differential run, whose palette bounds what it sees: a handler with an effect outside the 12 probes, or "
+                  "only under parameters the palette lacks, would be labelled read-only unnoticed); the harness's serde mirror of "
+                  "ControlRequest.  Not proved: anything inside handler bodies except config.set's and pair.*'s effect on the "
+                  "gates; termination of handlers (debug.evaluate self-deadlocks: finding recorded); TCP transport and audit log; "
+                  "Unicode white space in trim.  Known deviation recorded with counterexample + _partial theorem: a non-UTF-8 "
+                  "line drops the connection without an error reply.",
+}
+
+
+# ------------------------------------------------------------------------------------------------
+# oracle on the implementation, coverage of the classification, known findings
+# ------------------------------------------------------------------------------------------------
+
+def _unhex(h):
+    return "" if h == "-" else bytes.fromhex(h).decode("utf-8", "replace")
+
+
+def _fields(op):
+    out = {}
+    for w in op.split()[1:]:
+        if "=" in w:
+            k, v = w.split("=", 1)
+            out.setdefault(k, v)
+    return out
+
+
+REFUSALS = ("unauthorized", "forbidden", "debug-disabled", "unsupported", "invalid", "closed")
+
+
+def _class_of(ans):
+    """('handled' | refusal | other, fx-set) of an impl/model answer line."""
+    parts = ans.split()
+    fx = set()
+    cls = "other"
+    for w in parts:
+        if w.startswith("fx="):
+            fx = set() if w == "fx=-" else set(w[3:].split(","))
+        elif not w.startswith("id="):
+            cls = w.split(":")[0]
+    return cls, fx
+
+
+def extra(ctx):
+    import subprocess
+    res = {"coverage": {}, "oracle_failures": [], "known": [], "failures": []}
+    r = ctx["result"]
+    cases = ctx["cases"]
+    # (1) oracle: the implementation did more than the proved model allows => failing input
+    for d in r["disagreements"]:
+        if d.get("op_index", -1) < 0:
+            continue
+        ic, ifx = _class_of(d["impl"])
+        mc, mfx = _class_of(d["model"])
+        more = (ic == "handled" and mc in REFUSALS) or bool(ifx - mfx) or ic in ("hang", "garbage-reply") \
+            or (ic == "closed" and mc != "closed")
+        if more:
+            f = _fields(d["op"])
+            res["oracle_failures"].append({
+                "what": "the implementation performed or revealed more than the role gate allows (or crashed/hung): "
+                        f"impl '{d['impl']}' vs proved model '{d['model']}'",
+                "case": d["case"], "seed": d.get("seed"), "tier": d.get("tier"), "op": d["op"],
+                "request_line": _unhex(f.get("raw", "-")), "impl": d["impl"], "expected": d["model"],
+                "case_lines": d.get("case_lines", []),
+            })
+    # (2) the classification is validated only if every dispatched name was seen handled, every mutating name
+    #     was seen changing a probe, and every gate was seen refusing
+    p = subprocess.run([vlib.DRIVER, "c18", "classes"], stdin=subprocess.DEVNULL, stdout=subprocess.PIPE, text=True)
+    classes = {}
+    for line in p.stdout.splitlines():
+        w = line.split()
+        if w and w[0] == "class":
+            classes[_unhex(w[1])] = {kv.split("=")[0]: kv.split("=")[1] for kv in w[2:]}
+    seen_handled, seen_effect, by_class, nonutf8 = set(), set(), {}, 0
+    per_type = {}
+    for c in cases:
+        for op, impl in c.ops:
+            if not op:
+                continue
+            cls, fx = _class_of(impl)
+            by_class[cls] = by_class.get(cls, 0) + 1
+            if op.startswith("line notutf8") and cls == "closed":
+                nonutf8 += 1
+            if op.startswith("claimcheck") and impl.strip() == "fail":
+                # the pending code the case started with is gone: pair.start / pair.claim / expiry took effect
+                for op2, impl2 in c.ops:
+                    if op2 and op2.startswith("req ") and _class_of(impl2)[0] == "handled":
+                        t2 = _unhex(_fields(op2).get("type", "-"))
+                        if t2 == "pair.start":
+                            seen_effect.add(t2)
+            if op.startswith("req "):
+                t = _unhex(_fields(op).get("type", "-"))
+                if t in classes:
+                    pt = per_type.setdefault(t, {"handled": 0, "refused": 0, "effect": 0})
+                    if cls == "handled":
+                        seen_handled.add(t)
+                        pt["handled"] += 1
+                    else:
+                        pt["refused"] += 1
+                    if fx:
+                        seen_effect.add(t)
+                        pt["effect"] += 1
+    if ctx["tier"] in ("quick", "thorough") and len(cases) > 3000:
+        for t, k in classes.items():
+            if t not in seen_handled:
+                res["failures"].append(f"coverage: request '{t}' was never dispatched in this run")
+            if k.get("mutating") == "1" and t not in seen_effect:
+                res["failures"].append(f"coverage: the effect of mutating request '{t}' was never observed "
+                                       "(its Mutating label is not validated)")
+        for cls in ("unauthorized", "forbidden", "debug-disabled", "unsupported", "invalid", "handled"):
+            if not by_class.get(cls):
+                res["failures"].append(f"coverage: reply class {cls} never observed")
+    stats = r.get("stats", {})
+    res["coverage"].update({
+        "dispatched_names": len(classes),
+        "mutating_names": sorted(t for t, k in classes.items() if k.get("mutating") == "1"),
+        "names_seen_dispatched": len(seen_handled),
+        "mutating_names_seen_with_effect": len(seen_effect),
+        "reply_classes": by_class,
+        "per_type": per_type,
+        "lines_per_second": round(r.get("ops", 0) / max(0.001, stats.get("wall-ms", 1) / 1000.0), 1),
+    })
+    # (3) recorded findings: replayed by the harness against the real server on every run
+    known = {f["id"]: f for f in vlib.known_findings("C18")}
+    observed = {k[len("finding:"):]: v for k, v in stats.items() if k.startswith("finding:")}
+    res["coverage"]["finding_replays"] = observed
+
+    def reproduced(fid, key, what):
+        if observed.get(key):
+            if fid in known:
+                res["known"].append(f"{fid}: {known[fid]['what']}")
+            else:
+                res["oracle_failures"].append({"what": what, "finding": fid, "observed": observed})
+        elif fid in known and observed:
+            res["coverage"].setdefault("findings_no_longer_reproducing", []).append(fid)
+
+    reproduced("C18-nonutf8-line-no-reply", "nonutf8-line:closed",
+               "a request line that is not valid UTF-8 closes the connection without an error reply")
+    reproduced("C18-debug-evaluate-self-deadlock", "debug-evaluate:hang",
+               "debug.evaluate with a parsable expression never answers and leaves the metadata mutex locked")
+    return res
+
+
 if __name__ == "__main__":
     t = translate_control()
     print(json.dumps({k: (len(v) if isinstance(v, list) else v) for k, v in t.items() if k != "modules"}, indent=1))
